@@ -25,6 +25,8 @@ var c16Paths = []string{"provision-crl_file", "provision-crl_url", "first-cdp-fe
 type c16Cell struct {
 	Mode, Signer, Path string
 	Disk               bool
+	// ExtraTrusted: an unrelated CA certificate is configured as trusted signature certificate in addition
+	ExtraTrusted bool
 }
 
 func (c c16Cell) String() string {
@@ -32,7 +34,11 @@ func (c c16Cell) String() string {
 	if m == "" {
 		m = "(unset)"
 	}
-	return fmt.Sprintf("mode=%s signer=%s path=%s backend=%s", m, c.Signer, c.Path, be(c.Disk))
+	x := ""
+	if c.ExtraTrusted {
+		x = " trusted+=unrelated-CA"
+	}
+	return fmt.Sprintf("mode=%s signer=%s path=%s backend=%s%s", m, c.Signer, c.Path, be(c.Disk), x)
 }
 
 const c16URL = "http://crl.test/c16.crl"
@@ -143,6 +149,10 @@ func (c *c16Cast) runCell(cell c16Cell) (obs c16Obs, want []string) {
 				cfg.TrustedSignatureCertsFiles = []string{WritePEM(filesDir, "ca.pem", c.ca.Cert)}
 			case "first-cdp-fetch-background":
 				cfg.CDPConfig.CRLFetchMode = "fetch_background"
+			}
+			if cell.ExtraTrusted {
+				// a trusted signer which has nothing to do with this CRL changes nothing about the policy
+				cfg.TrustedSignatureCertsFiles = append([]string{WritePEM(filesDir, "unrelated.pem", c.p.CARSA.Cert)}, cfg.TrustedSignatureCertsFiles...)
 			}
 			return cfg
 		}
@@ -271,7 +281,7 @@ func (c *c16Cast) runCell(cell c16Cell) (obs c16Obs, want []string) {
 func RunC16(tier string, args []string) int {
 	chk := fw.NewCheck("C16", tier, "model_checking")
 	chk.Assumptions = []string{
-		"exhaustive matrix mode(4) x signer(3) x intake path(6) x backend(2); each cell is a short history on the real CertRevocationValidator (Provision -> handshakes -> publish v2 -> tick -> handshakes -> restart -> handshakes) under the virtual clock",
+		"exhaustive matrix mode(4) x signer(3) x intake path(6) x backend(2) x trusted signers {as needed, plus an unrelated CA}; each cell is a short history on the real CertRevocationValidator (Provision -> handshakes -> publish v2 -> tick -> handshakes -> restart -> handshakes) under the virtual clock",
 		"in force is observed through strict-mode handshakes for three probes (listed since v1, listed since v2, never listed); reference: verify/unset accept only a resolvable signer with a right signature, verify_log/none accept every parseable CRL",
 	}
 	SilenceStderr()
@@ -283,33 +293,38 @@ func RunC16(tier string, args []string) int {
 		for _, signer := range c16Signers {
 			for _, path := range c16Paths {
 				for _, disk := range []bool{false, true} {
-					cell := c16Cell{mode, signer, path, disk}
-					obs, want := c.runCell(cell)
-					if want == nil && obs.Probes == nil && obs.ProvisionErr == "" {
-						continue
-					}
-					cells++
-					transitions += len(obs.Probes) + 1
-					got := strings.Join(obs.Probes, ",")
-					exp := strings.Join(want, ",")
-					outcomes.Add(fmt.Sprintf("%s|%s|%v", got, exp, obs.ProvisionErr != ""))
-					if len(samples) < 4 && cells%53 == 0 {
-						samples = append(samples, map[string]interface{}{"cell": cell.String(), "observed": obs.Probes, "expected": want})
-					}
-					modeClass := cell.Mode
-					if modeClass == "" {
-						modeClass = "unset"
-					}
-					sig := fmt.Sprintf("mode=%s signer=%s path=%s", modeClass, cell.Signer, cell.Path)
-					switch {
-					case strings.Contains(got, "PANIC"):
-						chk.Violation("C16|panic|"+sig, fmt.Sprintf("panic in cell %s: %s", cell, got), cell)
-					case obs.ProvisionErr != "" && strings.Contains(exp, "provision-must-succeed"):
-						chk.Violation("C16|provision-fails|"+sig, fmt.Sprintf("cell %s: Provision fails although the configured mode accepts this CRL: %s", cell, obs.ProvisionErr), cell)
-					case obs.ProvisionErr != "":
-						// verify + unacceptable configured CRL: failing to provision is allowed
-					case got != exp:
-						chk.Violation("C16|policy-mismatch|"+sig, fmt.Sprintf("cell %s: versions in force at the probes were [%s], the policy demands [%s]", cell, got, exp), cell)
+					for _, extra := range []bool{false, true} {
+						cell := c16Cell{mode, signer, path, disk, extra}
+						obs, want := c.runCell(cell)
+						if want == nil && obs.Probes == nil && obs.ProvisionErr == "" {
+							continue
+						}
+						cells++
+						transitions += len(obs.Probes) + 1
+						got := strings.Join(obs.Probes, ",")
+						exp := strings.Join(want, ",")
+						outcomes.Add(fmt.Sprintf("%s|%s|%v", got, exp, obs.ProvisionErr != ""))
+						if len(samples) < 4 && cells%53 == 0 {
+							samples = append(samples, map[string]interface{}{"cell": cell.String(), "observed": obs.Probes, "expected": want})
+						}
+						modeClass := cell.Mode
+						if modeClass == "" {
+							modeClass = "unset"
+						}
+						sig := fmt.Sprintf("mode=%s signer=%s path=%s", modeClass, cell.Signer, cell.Path)
+						if cell.ExtraTrusted {
+							sig += " trusted+=unrelated-CA"
+						}
+						switch {
+						case strings.Contains(got, "PANIC"):
+							chk.Violation("C16|panic|"+sig, fmt.Sprintf("panic in cell %s: %s", cell, got), cell)
+						case obs.ProvisionErr != "" && strings.Contains(exp, "provision-must-succeed"):
+							chk.Violation("C16|provision-fails|"+sig, fmt.Sprintf("cell %s: Provision fails although the configured mode accepts this CRL: %s", cell, obs.ProvisionErr), cell)
+						case obs.ProvisionErr != "":
+							// verify + unacceptable configured CRL: failing to provision is allowed
+						case got != exp:
+							chk.Violation("C16|policy-mismatch|"+sig, fmt.Sprintf("cell %s: versions in force at the probes were [%s], the policy demands [%s]", cell, got, exp), cell)
+						}
 					}
 				}
 			}
